@@ -308,6 +308,34 @@ def dedup (l : List String) : List String := l.foldl (fun acc s => if acc.contai
 
 def proOf (e : J α) : J α := (e.get? "path-route-object").getD .null
 
+/-- `>=` on two row values that must be numbers -/
+def geJ (a b : J α) : Except String Bool :=
+  match a, b with
+  | .num x, .num y => .ok (decide (y ≤ x))
+  | _, _ => .error "TypeError"
+
+/-- ceil(a / b) as the harness-side integer is not representable polymorphically; the number of transponder pairs is
+returned as the quotient `a / b` and the driver applies `ceil` (class D near integers) -/
+def quot (a b : J α) : Except String α :=
+  match a, b with
+  | .num x, .num y => .ok (x / y)
+  | _, _ => .error "TypeError"
+
+/-- the fifteen `jsontoparamsfields` values from the ten `_jsontopath_metric` values, the library mode, the margin,
+the hop string and the spectrum string -/
+def paramVals (pm : List (J α)) (mode : ModeInfo α) (margin : α) (pth sptrm : String) : Option (List (J α)) :=
+  match pm with
+  | [osnr, snr, snrbw, smin, smax, pdl, cd, pmd, power, pbw] =>
+    some [pbw, osnr, snr, snrbw, smin, smax, pdl, cd, pmd, .num (mode.osnr + margin),
+          .num (round2 (mode.baudRate * giga)), power, .str pth, .str sptrm, .num (round2 (mode.bitRate * giga))]
+  | _ => none
+
+/-- `values['Pass?'] = rsnr_min >= minosnr if rsnr_min != '' else rsnr >= minosnr` -/
+def passFlag (rsnrMin rsnr minosnr : J α) : Except String Bool :=
+  match rsnrMin with
+  | .str "" => geJ rsnr minosnr
+  | _ => geJ rsnrMin minosnr
+
 /-- the fifteen `jsontoparamsfields` values and the cost -/
 def jsonToParams (props : J α) (trxType : String) (trxMode : Option String) (lib : List (ModeInfo α)) (margin : α) :
     Except String (List (J α) × J α) := do
@@ -324,12 +352,9 @@ def jsonToParams (props : J α) (trxType : String) (trxMode : Option String) (li
       | some m => pure m
       | none => throw "StopIteration"
   let pm ← jsonToPathMetric (((props.get? "path-metric").bind J.items?).getD [])
-  match pm with
-  | [osnr, snr, snrbw, smin, smax, pdl, cd, pmd, power, pbw] =>
-    return ([pbw, osnr, snr, snrbw, smin, smax, pdl, cd, pmd, .num (mode.osnr + margin),
-             .num (round2 (mode.baudRate * giga)), power, .str pth, .str sptrm, .num (round2 (mode.bitRate * giga))],
-            mode.cost)
-  | _ => throw "internal"
+  match paramVals pm mode margin pth sptrm with
+  | some vals => return (vals, mode.cost)
+  | none => throw "internal"
 
 /-- one CSV row as an association list field → value (missing fields are the empty string) -/
 structure Row (α : Type) where
@@ -363,19 +388,6 @@ def srceDestTrx (pros : List (J α)) (emitter : Nat) (fromEnd : Nat) :
   let md := (tsp.get? "transponder-mode").bind J.str?
   return (src, dst, ty, md)
 
-/-- `>=` on two row values that must be numbers -/
-def geJ (a b : J α) : Except String Bool :=
-  match a, b with
-  | .num x, .num y => .ok (decide (y ≤ x))
-  | _, _ => .error "TypeError"
-
-/-- ceil(a / b) as the harness-side integer is not representable polymorphically; the number of transponder pairs is
-returned as the quotient `a / b` and the driver applies `ceil` (class D near integers) -/
-def quot (a b : J α) : Except String α :=
-  match a, b with
-  | .num x, .num y => .ok (x / y)
-  | _, _ => .error "TypeError"
-
 /-- one response element → the values `jsontocsv` writes. `nbTsp` is returned separately (quotient before `ceil`). -/
 def csvRow (resp : J α) (lib : List (ModeInfo α)) (margin : α) : Except String (Row α × Option α × J α) := do
   let rid := (resp.get? "response-id").getD (.str "")
@@ -408,9 +420,7 @@ def csvRow (resp : J α) (lib : List (ModeInfo α)) (margin : α) : Except Strin
     let minosnr := get "min required OSNR (inc. margin)"
     let rsnrMin := get "SNR-0.1nm (min)"
     let rsnr := get "SNR-0.1nm (average)"
-    let pass ← match rsnrMin with
-      | .str "" => geJ rsnr minosnr
-      | _ => geJ rsnrMin minosnr
+    let pass ← passFlag rsnrMin rsnr minosnr
     let q ← quot (get "path_bandwidth") (get "bit rate")
     let rev ← match (props.get? "z-a-path-metric").bind J.items? with
       | some zm => do let l ← jsonToPathMetric zm; pure (revFields.zip l)
